@@ -13,13 +13,49 @@ import os, re, json, stat
 from concurrent.futures import ThreadPoolExecutor
 from . import common as C, repo as R
 
-FLAGS_AS_IS = "0000000000"   # fixed_P7 fixed_P8 fixed_mv_absent fixed_P45 fixed_P47 fixed_P3 + core (Repo/Fix.v): fixed_P44 fixed_P41 fixed_P49 fixed_P43
-FLAG_NAMES = ("fixed_P7", "fixed_P8", "fixed_mv_absent", "fixed_P45", "fixed_P47", "fixed_P3", "fixed_P44", "fixed_P41", "fixed_P49", "fixed_P43")
+FLAGS_AS_IS = "00000000000"   # fixed_P7 fixed_P8 fixed_mv_absent fixed_P45 fixed_P47 fixed_P3 + core (Repo/Fix.v): fixed_P44 fixed_P41 fixed_P49 fixed_P43 + fixed_P50
+FLAG_NAMES = ("fixed_P7", "fixed_P8", "fixed_mv_absent", "fixed_P45", "fixed_P47", "fixed_P3", "fixed_P44", "fixed_P41", "fixed_P49", "fixed_P43", "fixed_P50")
+
+
+def p50_from_source(text=None):
+    """the switch fixed_P50 of Repo/Ext.v (cache_remove / reseal), read from XvcCachePath::remove in
+    core/src/types/xvcpath.rs: after fs::remove_file(&abs_cp) the code either does nothing more to the
+    directory of the cache file (the code before the repair: False) or sets it read-only again when
+    read_dir() still yields an entry (the repair: True).  Any other shape raises R.ProbeError: the check
+    then ends as a correspondence failure instead of picking a model"""
+    rel = "core/src/types/xvcpath.rs"
+    if text is None:
+        try:
+            text = open(os.path.join(C.REPO, rel)).read()
+        except OSError as e:
+            raise R.ProbeError("fixed_P50: cannot read %s: %s" % (rel, e))
+    m = re.search(r"pub fn remove\(&self,[^)]*\) -> Result<\(\)> \{(.*?)\n    \}\n", text, re.S)
+    if not m:
+        raise R.ProbeError("fixed_P50: XvcCachePath::remove not found in %s" % rel)
+    body = re.sub(r"//[^\n]*", "", m.group(1))
+    i, j = body.find("fs::remove_file(&abs_cp)"), body.find("let mut rel_path = self.inner();")
+    if not (0 <= i < j) or body.count("fs::remove_file(") != 1:
+        raise R.ProbeError("fixed_P50: XvcCachePath::remove in %s no longer has the shape `if abs_cp.exists() { .. fs::remove_file(&abs_cp) .. } let mut rel_path = ..`" % rel)
+    head, tail = body[:i], body[i:j]
+    # before the deletion: the directory and the file are made writable (dput .. true / chmod_w_through in the model)
+    if head.count("set_readonly(false)") != 2 or "set_readonly(true)" in head or not re.search(r"fs::set_permissions\(\s*parent\s*,", head):
+        raise R.ProbeError("fixed_P50: the part of XvcCachePath::remove before fs::remove_file is not the modelled one (directory and file set writable)")
+    touches = [w for w in ("set_readonly", "set_permissions", "read_dir", "remove_dir", "chmod", "from_mode", "set_mode") if w in tail]
+    if not touches:
+        return False
+    fixed = re.search(r"if\s+parent\s*\.read_dir\(\)\?\s*\.next\(\)\s*\.is_some\(\)\s*\{([^{}]*)\}", tail)
+    if fixed and tail.count("set_readonly(") == 1 and tail.count("set_permissions(") == 1 and tail.count("read_dir(") == 1 \
+            and re.search(r"let\s+mut\s+(\w+)\s*=\s*parent\s*\.metadata\(\)\?\s*\.permissions\(\);\s*\1\.set_readonly\(true\);\s*fs::set_permissions\(\s*parent\s*,\s*\1\s*\)\?;\s*$", fixed.group(1).strip()) \
+            and not any(w in tail for w in ("remove_dir", "chmod", "from_mode", "set_mode")):
+        return True
+    raise R.ProbeError("fixed_P50: what XvcCachePath::remove does to the directory after fs::remove_file(&abs_cp) is neither the code before the repair "
+                       "(nothing) nor the repair (`if parent.read_dir()?.next().is_some() { .. set_readonly(true); fs::set_permissions(parent, ..)?; }`): %r" % " ".join(tail.split())[:400])
 
 
 def flags_from_source():
-    """which of the three repairs the working tree of /repo contains (read from the source on every
-    run): the model is run with the matching switches, and the theorems cover both values"""
+    """which of the repairs the working tree of /repo contains (read from the source on every
+    run): the model is run with the matching switches, and the theorems cover both values.
+    -> 11 characters 0/1 in the order of FLAG_NAMES (positions 6..9: the core switches, probed on the binary)"""
     def src(rel):
         try:
             return open(os.path.join(C.REPO, rel)).read()
@@ -47,7 +83,9 @@ def flags_from_source():
     p47 = "its content is not in the cache" in un
     # the switches of the core commands track / carry-in (Repo/Fix.v) are probed on the binary (vlib/repo.py:probe_fixes;
     # an inconclusive probe raises R.ProbeError: the check then fails as a correspondence failure without input)
-    return "".join("1" if b else "0" for b in (p7, p8, mva, p45, p47, p3)) + R.current_fixes()
+    # the fix of P50 (finding of C02): XvcCachePath::remove sets the directory read-only again when cache files stay in it
+    p50 = p50_from_source()
+    return "".join("1" if b else "0" for b in (p7, p8, mva, p45, p47, p3)) + R.current_fixes() + ("1" if p50 else "0")
 MINE = ("copy", "move", "remove", "untrack")
 
 TRUSTED = [
@@ -57,7 +95,7 @@ TRUSTED = [
     "correspondence: vlib/repo.py + vlib/repoext.py (scenario runner on the hook-instrumented xvc binary built from /repo, observer of workspace / cache / store event logs, canonicaliser); tools/blake3_ref.py and Python hashlib as independent hash implementations",
     "modelled, not verified: file/src/{copy,mv,remove,untrack}/mod.rs, file/src/common/mod.rs (filter_targets_from_store, filter_paths_by_globs, build_glob_matcher without its is_dir test, cache_paths_for_xvc_paths, recheck_from_cache; with the repair of P3 in the tree: cache_file_available_for_path, copy_cache_file_for_path = Ext.available / Ext.share_object, whose temporary file is not modelled), file/src/recheck/mod.rs::make_recheck_handler, core/src/types/xvcpath.rs (XvcCachePath::new/remove, XvcPath::join/join_file_name/parents) as Repo/Ext.v over Repo/Model.v (track / carry-in / recheck, the file system with inodes) and Glob/Match.v (fast-glob); hash functions are ideal; --only-version prefixes are given to the model as the set of digests they match; the component stores are seen through their loaded maps (justified by C08); commands run from the repository root (C18 is a separate property); .gitignore handling, --from-storage and --restore-versions are not in the model (the real-run oracles still apply to --restore-versions runs)",
     "reachability theorems (Repo/ExtReach.v) rest on INV of Repo/Inv.v (b-repo-core) and its preservation by track / carry-in / recheck outside that file's monitor `unclean`; the extracted predicate ExtReach.xclean is evaluated on every generated history and the count of items inside the theorems' domain is reported in the distribution",
-    "the model switches fixed_P7 / fixed_P8 / fixed_mv_absent / fixed_P45 / fixed_P47 / fixed_P3 are read from the text of file/src/{untrack,mv,copy,common}/mod.rs (presence of the repaired constructs); a wrong reading shows up as a correspondence failure (the corpus witnesses of each class run first)",
+    "the model switches fixed_P7 / fixed_P8 / fixed_mv_absent / fixed_P45 / fixed_P47 / fixed_P3 are read from the text of file/src/{untrack,mv,copy,common}/mod.rs (presence of the repaired constructs), fixed_P50 from XvcCachePath::remove in core/src/types/xvcpath.rs (what happens to the directory after fs::remove_file: nothing / read-only again when read_dir() is not empty; any other shape is a correspondence failure); a wrong reading shows up as a correspondence failure (the corpus witnesses of each class run first; the directory mode of every cache object is part of the compared observation)",
     "the visiting order of the targets of one command (HashMap iteration) is a parameter of the model; it only matters when a command panics half-way: on such items the workspace part of multi-target observations is not compared",
     "environment assumptions: edits_visible (every user write gets a distinct explicit mtime); POSIX rename/link/symlink/unlink semantics",
 ]
@@ -547,7 +585,7 @@ def run_property(chk, replay, focus, oracle, classify_corr, nontrivial, rule, n_
     chk.proof()
     flags = flags_from_source()
     chk.cov["model_switches"] = dict({n: flags[i] == "1" for i, n in enumerate(FLAG_NAMES)},
-                                     read_from="file/src/{untrack,mv,copy,common}/mod.rs of the working tree")
+                                     read_from="file/src/{untrack,mv,copy,common}/mod.rs and core/src/types/xvcpath.rs of the working tree; fixed_P44/P41/P49/P43 probed on the binary")
     model = C.ensure_model("Repoext", ["Base", "Repo", "Glob"])
     xvc = C.ensure_xvc()
     scs = []
